@@ -330,3 +330,222 @@ Example C02_example_wfb :
   = [true; true; true; true; true].
 Proof. vm_compute. reflexivity. Qed.
 Print Assumptions C02_example_wfb.
+
+(* ======================================================================================================
+   The bridge between the store invariant and the diagram semantics (TTN/InvSem*.v): the extended
+   executable invariant wfsb (wfb + atom table / summed wires / atom identifiers), the diagram of the
+   WHOLE network (net_diagram: all atoms; summed wires = wires summed inside tensors ++ every edge wire once;
+   axes = open_wires) and its value net_value over an arbitrary commutative semiring.
+   ====================================================================================================== *)
+From PTN Require Import Wire.Sem TTN.InvSem TTN.InvSemProofs TTN.InvSemWfs TTN.InvSemValue TTN.InvSemOps TTN.InvSemEye TTN.InvSemRun.
+
+Theorem C02_wfsb_iff : forall s : store, wfsb s = true <-> wfs s.
+Proof. exact wfsb_iff. Qed.
+Print Assumptions C02_wfsb_iff.
+
+(* wire accounting: every wire end of a well-formed network is an open leg (once) or belongs to a summed
+   wire (twice) *)
+Theorem C02_wf_total_ends : forall s : store, wf s ->
+  Permutation (total_ends s) (open_wires s ++ net_bnd s ++ net_bnd s).
+Proof. exact wf_total_ends. Qed.
+Print Assumptions C02_wf_total_ends.
+
+(* ---- wfsb is preserved by every operation (same preconditions as for wfb) and by run ------------------ *)
+Theorem C02_access_preserves_wfsb : forall (s : store) (n : id) (s' : store) (nd : node) (t : sarr),
+  wfsb s = true -> access s n = Some (s', nd, t) -> wfsb s' = true.
+Proof. exact access_preserves_wfsb. Qed.
+Print Assumptions C02_access_preserves_wfsb.
+
+Theorem C02_contract_preserves_wfsb : forall (s : store) (a b new : id) (s' : store),
+  wfsb s = true -> contract_nodes s a b new = Some s' ->
+  (new = a \/ new = b \/ ~ In new (akeys (nodes s))) -> wfsb s' = true.
+Proof. exact contract_preserves_wfsb. Qed.
+Print Assumptions C02_contract_preserves_wfsb.
+
+Theorem C02_rename_preserves_wfsb : forall (s : store) (new old : id) (s' : store),
+  wfsb s = true -> rename s new old = Some s' -> wfsb s' = true.
+Proof. exact rename_preserves_wfsb. Qed.
+Print Assumptions C02_rename_preserves_wfsb.
+
+Theorem C02_replace_tensor_preserves_wfsb : forall (s : store) (n : id) (q : list nat) (p : option (list nat)) (s' : store),
+  wfsb s = true -> replace_tensor s n q p = Some s' ->
+  inverse_of (match p with Some p' => p' | None => seq 0 (length q) end) q -> wfsb s' = true.
+Proof. exact replace_tensor_preserves_wfsb. Qed.
+Print Assumptions C02_replace_tensor_preserves_wfsb.
+
+Theorem C02_insert_identity_preserves_wfsb : forall (s : store) (c p new : id) (s' : store),
+  wfsb s = true -> insert_identity s c p new = Some s' -> wfsb s' = true.
+Proof. exact insert_identity_preserves_wfsb. Qed.
+Print Assumptions C02_insert_identity_preserves_wfsb.
+
+Theorem C02_split_preserves_wfsb : forall (s : store) (n : id) (o i : legspec) (oid iid : id) (kind : nat) (m : mode) (rbond : nat) (s' : store),
+  wfsb s = true -> split_nodes s n o i oid iid kind m rbond = Some s' ->
+  spec_ok s n o i -> ids_ok s n oid iid -> wfsb s' = true.
+Proof. exact split_preserves_wfsb. Qed.
+Print Assumptions C02_split_preserves_wfsb.
+
+Theorem C02_add_child_preserves_wfsb : forall (s : store) (c : id) (shp : list nat) (cleg : nat) (p : id) (pleg : nat) (s' : store),
+  wfsb s = true -> add_child s c shp cleg p pleg = Some s' -> wfsb s' = true.
+Proof. exact add_child_preserves_wfsb. Qed.
+Print Assumptions C02_add_child_preserves_wfsb.
+
+(* blank_s: no nodes, no tensors, no root, and no stale atom-table keys (e.g. empty_store) *)
+Theorem C02_add_root_wfsb : forall (s : store) (n : id) (shp : list nat) (s' : store),
+  blank_s s -> add_root s n shp = Some s' -> wfsb s' = true.
+Proof. exact add_root_wfsb. Qed.
+Print Assumptions C02_add_root_wfsb.
+
+Theorem C02_step_preserves_wfsb : forall (s : store) (o : op) (s' : store),
+  wfsb s = true -> op_okb s o = true -> step s o = Some s' -> wfsb s' = true.
+Proof. exact step_preserves_wfsb. Qed.
+Print Assumptions C02_step_preserves_wfsb.
+
+Theorem C02_run_preserves_wfs : forall (ops : list op) (s : store), wfs s -> ops_ok s ops -> wfs (fst (run s ops)).
+Proof. exact run_preserves_wfs. Qed.
+Print Assumptions C02_run_preserves_wfs.
+
+Theorem C02_run_wfsb_empty : forall ops : list op, ops_ok empty_store ops -> run_wfsb empty_store ops = after_root false ops.
+Proof. exact run_wfsb_empty. Qed.
+Print Assumptions C02_run_wfsb_empty.
+
+(* ---- the value of the whole network is preserved ----------------------------------------------------------- *)
+(* access / rename / replace_tensor / contract_nodes only permute the atoms and the summed wires of the
+   network diagram (for a contraction the contracted edge wire moves from "edge wires" to the new
+   tensor's summed wires) *)
+Theorem C02_access_net_value : forall (R : Type) (zero one : R) (add mul : R -> R -> R),
+  comm_semiring zero one add mul -> forall (tbl : nat -> list nat -> R)
+  (s : store) (n : id) (s' : store) (nd : node) (t : sarr),
+  wf s -> access s n = Some (s', nd, t) ->
+  open_wires s' = open_wires s /\
+  forall rho, net_value zero one add mul s' tbl rho = net_value zero one add mul s tbl rho.
+Proof. exact access_net_value. Qed.
+Print Assumptions C02_access_net_value.
+
+Theorem C02_rename_net_value : forall (R : Type) (zero one : R) (add mul : R -> R -> R),
+  comm_semiring zero one add mul -> forall (tbl : nat -> list nat -> R)
+  (s : store) (new old : id) (s' : store),
+  wf s -> rename s new old = Some s' ->
+  Permutation (open_wires s') (open_wires s) /\
+  forall rho, net_value zero one add mul s' tbl rho = net_value zero one add mul s tbl rho.
+Proof. exact rename_net_value. Qed.
+Print Assumptions C02_rename_net_value.
+
+Theorem C02_replace_tensor_net_value : forall (R : Type) (zero one : R) (add mul : R -> R -> R),
+  comm_semiring zero one add mul -> forall (tbl : nat -> list nat -> R)
+  (s : store) (n : id) (q : list nat) (p : option (list nat)) (s' : store),
+  wf s -> replace_tensor s n q p = Some s' ->
+  inverse_of (match p with Some p' => p' | None => seq 0 (length q) end) q ->
+  open_wires s' = open_wires s /\
+  forall rho, net_value zero one add mul s' tbl rho = net_value zero one add mul s tbl rho.
+Proof. exact replace_tensor_net_value. Qed.
+Print Assumptions C02_replace_tensor_net_value.
+
+Theorem C02_contract_net_value : forall (R : Type) (zero one : R) (add mul : R -> R -> R),
+  comm_semiring zero one add mul -> forall (tbl : nat -> list nat -> R)
+  (s : store) (a b new : id) (s' : store),
+  wf s -> contract_nodes s a b new = Some s' -> (new = a \/ new = b \/ ~ In new (akeys (nodes s))) ->
+  Permutation (open_wires s') (open_wires s) /\
+  forall rho, net_value zero one add mul s' tbl rho = net_value zero one add mul s tbl rho.
+Proof. exact contract_net_value. Qed.
+Print Assumptions C02_contract_net_value.
+
+(* node level (variable elimination): the new node's tensor is the sum over the child's edge wire of the
+   product of the two old tensors *)
+Theorem C02_contract_node_value : forall (R : Type) (zero one : R) (add mul : R -> R -> R),
+  comm_semiring zero one add mul -> forall (tbl : nat -> list nat -> R)
+  (s : store) (a b new : id) (s' : store),
+  wfs s -> contract_nodes s a b new = Some s' -> (new = a \/ new = b \/ ~ In new (akeys (nodes s))) ->
+  exists p c cn,
+    ((p = a /\ c = b) \/ (p = b /\ c = a)) /\ aget c (nodes s) = Some cn /\ parent cn = Some p /\
+    forall rho,
+      node_value zero one add mul s' tbl new rho
+      = sum_upto R zero add (wdim s (ew s c))
+          (fun k => mul (node_value zero one add mul s tbl p (upd rho (ew s c) k))
+                        (node_value zero one add mul s tbl c (upd rho (ew s c) k))).
+Proof. exact contract_node_value. Qed.
+Print Assumptions C02_contract_node_value.
+
+(* split_nodes under the kernel contract def_holds: for the newly recorded definition, summing Q.R over
+   the new bond gives the split tensor (transposed to out-legs ++ in-legs) at every wire assignment *)
+Theorem C02_split_net_value : forall (R : Type) (zero one : R) (add mul : R -> R -> R),
+  comm_semiring zero one add mul -> forall (tbl : nat -> list nat -> R)
+  (s : store) (n : id) (o i : legspec) (oid iid : id) (kind : nat) (m : mode) (rbond : nat) (s' : store),
+  wfs s -> split_nodes s n o i oid iid kind m rbond = Some s' -> spec_ok s n o i -> ids_ok s n oid iid ->
+  def_holds zero one add mul s' tbl (last (defs s') dflt_def) ->
+  Permutation (open_wires s') (open_wires s) /\
+  forall rho, net_value zero one add mul s' tbl rho = net_value zero one add mul s tbl rho.
+Proof. exact split_net_value. Qed.
+Print Assumptions C02_split_net_value.
+
+(* insert_identity under the contract that the fresh atom is an identity matrix: the old parent wire and
+   the fresh wire are both summed, so the value is unchanged at every assignment *)
+Theorem C02_insert_identity_net_value : forall (R : Type) (zero one : R) (add mul : R -> R -> R),
+  comm_semiring zero one add mul -> forall (tbl : nat -> list nat -> R)
+  (s : store) (c p new : id) (s' : store),
+  wfs s -> insert_identity s c p new = Some s' -> eye_atom zero one tbl (next_atom s) ->
+  open_wires s' = open_wires s /\
+  forall rho, net_value zero one add mul s' tbl rho = net_value zero one add mul s tbl rho.
+Proof. exact insert_identity_net_value. Qed.
+Print Assumptions C02_insert_identity_net_value.
+
+(* every sequence of operations without add_child (add_root is rejected once a root exists; rejected
+   operations leave the store unchanged), under the documented preconditions and the kernel contracts of its splits and inserted
+   identities: same set of open wires, same value at every wire assignment, invariant kept *)
+Theorem C02_run_net_value : forall (R : Type) (zero one : R) (add mul : R -> R -> R),
+  comm_semiring zero one add mul -> forall (tbl : nat -> list nat -> R) (ops : list op) (s : store),
+  wfs s -> ops_ok s ops -> forallb is_edit_op ops = true -> contracts_hold zero one add mul tbl s ops ->
+  wfs (fst (run s ops)) /\
+  Permutation (open_wires (fst (run s ops))) (open_wires s) /\
+  forall rho, net_value zero one add mul (fst (run s ops)) tbl rho = net_value zero one add mul s tbl rho.
+Proof. exact run_net_value. Qed.
+Print Assumptions C02_run_net_value.
+
+(* the network is a closed diagram: its value is a function of the indices on the open wires only *)
+Theorem C02_net_value_supp : forall (R : Type) (zero one : R) (add mul : R -> R -> R)
+  (tbl : nat -> list nat -> R) (s : store) (r r' : wire -> nat),
+  wfs s -> (forall x, In x (open_wires s) -> r x = r' x) ->
+  net_value zero one add mul s tbl r = net_value zero one add mul s tbl r'.
+Proof. exact net_value_supp. Qed.
+Print Assumptions C02_net_value_supp.
+
+(* entry level: net_entry s tbl rho0 idx is the entry of the tensor the whole network denotes at the
+   multi-index idx of its open legs (canonical order: node dict order, each node's open legs in node order).
+   A full multi-index determines it ... *)
+Theorem C02_net_entry_rho0_irrelevant : forall (R : Type) (zero one : R) (add mul : R -> R -> R)
+  (tbl : nat -> list nat -> R) (s : store) (rho0 rho0' : wire -> nat) (idx : list nat),
+  wfs s -> length idx = length (open_wires s) ->
+  net_entry zero one add mul s tbl rho0 idx = net_entry zero one add mul s tbl rho0' idx.
+Proof. exact net_entry_rho0_irrelevant. Qed.
+Print Assumptions C02_net_entry_rho0_irrelevant.
+
+(* ... and after any such sequence the network denotes the same tensor: entries agree whenever the two
+   multi-indices put the same index on every open wire (which wire sits on which open leg is given by the
+   open-leg rules C02_contract_open_rule / C02_split_open_legs / C02_rename_lax / ..._totals) *)
+Theorem C02_run_net_entry : forall (R : Type) (zero one : R) (add mul : R -> R -> R),
+  comm_semiring zero one add mul -> forall (tbl : nat -> list nat -> R) (ops : list op) (s : store)
+  (rho0 : wire -> nat) (idx idx' : list nat),
+  wfs s -> ops_ok s ops -> forallb is_edit_op ops = true -> contracts_hold zero one add mul tbl s ops ->
+  (forall x, In x (open_wires s) ->
+     assign rho0 (open_wires (fst (run s ops))) idx' x = assign rho0 (open_wires s) idx x) ->
+  net_entry zero one add mul (fst (run s ops)) tbl rho0 idx' = net_entry zero one add mul s tbl rho0 idx.
+Proof. exact run_net_entry. Qed.
+Print Assumptions C02_run_net_entry.
+
+(* non-vacuity: the extended checker accepts every state of a run with all kinds of editing operations, and
+   the hypotheses of C02_run_net_value (including the kernel contract) are satisfiable *)
+Example C02_example_wfsb :
+  run_wfsb empty_store [AddRoot 0 [2; 3; 2]; AddChild 1 [2; 2] 1 0 0; AddChild 2 [3; 2] 0 0 1;
+                        Contract 1 0 1;
+                        Split 1 {| ls_parent := None; ls_children := [2]; ls_open := [1]; ls_root := true |}
+                                {| ls_parent := None; ls_children := []; ls_open := [2]; ls_root := false |} 1 7 0 Reduced 0;
+                        InsertIdentity 7 1 9; Rename 5 7; Access 5; Contract 9 5 9; Contract 1 9 3]
+  = [true; true; true; true; true; true; true; true; true; true].
+Proof. vm_compute. reflexivity. Qed.
+Print Assumptions C02_example_wfsb.
+
+Example C02_example_contracts :
+  wfsb exv_s0 = true /\ ops_okb exv_s0 exv_ops = true /\ forallb is_edit_op exv_ops = true /\
+  snd (run exv_s0 exv_ops) = [true; true; true] /\
+  contracts_hold 0 1 Nat.add Nat.mul exv_tbl exv_s0 exv_ops.
+Proof. exact exv_hyps. Qed.
+Print Assumptions C02_example_contracts.
